@@ -91,6 +91,7 @@ class RunModel:
 
         ev = Evaluator(self.repo, mod, consts={k: v for k, v in self.consts.items() if not isinstance(v, dict)}, unroll_while=2,
                        call_oracle=oracle, inline=inline, max_depth=3)
+        ev.explore_handlers = False      # faults are injected by the oracle, one site at a time
         ev.keep_names_for_calls = True
         ev.simplify = True
         ev.classes_truthy = True
@@ -432,6 +433,7 @@ def r4(rr, repo):
         return None
 
     ev = Evaluator(repo, mod, unroll_while=1, call_oracle=oracle)
+    ev.explore_handlers = False
     ps = ev.run(fn.body)
     rr.paths += len(ps)
     n_end = n_wait_r = n_wait_s = 0
